@@ -141,7 +141,7 @@ fn check<T: Elem>(c: &VecCall<T>, ar: &mut Arenas, sib: &Option<crate::elem::Rou
     let mut c1 = c.clone();
     c1.place = [Place::End, Place::End, Place::End];
     c1.poison = 0xA5;
-    c1.prefill = 0xC3C3_C3C3_C3C3_C3C3;
+    c1.prefill = if (h >> 36) % 4 == 1 { 0 } else { 0xC3C3_C3C3_C3C3_C3C3 };
     let e1 = c1.exec(ar);
     if let Some((b, a)) = e1.fp_env {
         return leaked_fp_env(c, ar, "this call", b, a);
@@ -196,6 +196,11 @@ fn check<T: Elem>(c: &VecCall<T>, ar: &mut Arenas, sib: &Option<crate::elem::Rou
     }
     c2.poison = 0x3C;
     c2.prefill = 0x5A5A_5A5A_5A5A_5A5A;
+    // every fourth case: the result is pre-filled with +0.0 in run 1 and -0.0 in run 2 (integers: 0 and the sign bit) — a store
+    // that is skipped because the old element "equals" the new one would leave the other zero behind
+    if (h >> 36) % 4 == 1 {
+        c2.prefill = if T::FLOAT { T::from_f64(-0.0).to_bits() } else { 1u64 << (T::BITS - 1) };
+    }
     // when the two inputs have the same contents, the second run hands the routine one slice for both
     let same_contents = c.uses_b() && c.a.len() == c.b.len() && (0..c.a.len()).all(|i| c.a[i].to_bits() == c.b[i].to_bits());
     c2.alias_b = same_contents;
